@@ -568,7 +568,7 @@ Proof.
   - unfold q_applicable, q_deletable, q_multivalued. rewrite !(q_some _ _ _ _ _ Hr).
     otype_cases o Ho; unfold rd, unguarded; field_compute; cbv iota; walk.
   - unfold q_applicable, q_deletable, q_multivalued, q. rewrite Hr. policy_compute.
-    otype_cases o Ho; unfold rd, unguarded; field_compute; cbv iota; simpl; walk; try (left; vm_compute; reflexivity).
+    otype_cases o Ho; unfold rd, unguarded; field_compute; cbv iota; simpl; walk; try exact I; try (left; vm_compute; reflexivity).
 Qed.
 
 Lemma ok_h_delete1 : forall cr v s u n i, wf_store s -> sites_ok (allowed "DELETE_ATTRIBUTE" cr) (h_delete1 v s u n i).
